@@ -19,7 +19,7 @@ import struct
 from hypothesis import strategies as st
 
 from vlib import elf as E
-from vlib import tools
+from vlib import slow, tools
 from vlib.core import Check, Discard, Inconclusive, Violation
 from vlib.elf import Elf
 
@@ -388,17 +388,21 @@ class Validator:
             return
         if r is None or r.memsz == 0:
             return  # nothing to protect is legitimate; which sections are relro is the linker's call
+        if not any(s.flags & E.SHF_ALLOC and s.size and r.vaddr <= s.addr < r.vaddr + r.memsz for s in e.sections) \
+                and not any(s.name in self.MUST_RELRO and s.size and s.flags & E.SHF_ALLOC for s in e.sections):
+            return  # covers no section and there is nothing it should cover (lld emits this for an empty .tdata)
         host = None
         for l in e.loads():
             # the loader protects whole pages, so the segment may run up to the end of the load's last page
-            if l.vaddr <= r.vaddr and r.vaddr + r.memsz <= (l.vaddr + l.memsz + PAGE - 1) // PAGE * PAGE:
+            pg = max(l.align, PAGE)
+            if l.vaddr <= r.vaddr and r.vaddr + r.memsz <= (l.vaddr + l.memsz + pg - 1) // pg * pg:
                 host = l
         if host is None:
             raise Bad("relro-not-in-load", f"PT_GNU_RELRO {r} is not inside one PT_LOAD")
         if not host.flags & E.PF_W:
             raise Bad("relro-in-readonly-load", f"PT_GNU_RELRO {r} lies in non-writable {host}")
         end = r.vaddr + r.memsz
-        if end % PAGE and end < host.vaddr + host.memsz:
+        if end % PAGE:
             raise Bad("relro-end-not-page-aligned", f"PT_GNU_RELRO ends at {end:#x}: the loader protects whole pages only, "
                       "so the tail of the RELRO area stays writable")
         plo = r.vaddr // PAGE * PAGE
@@ -433,7 +437,7 @@ def section_strategy():
         "flags": st.sampled_from(FLAGS + ["a", "aw", "ax", "aw"]),
         "align": st.one_of(st.integers(0, 6), st.integers(0, 6), st.integers(7, 12), st.integers(12, 16)),
         "size": SIZES,
-        "name": st.sampled_from(["std", "std", "dot", "cident", "odd"]),
+        "name": st.sampled_from(["std", "dot", "cident", "odd"]),
         "obj": st.integers(0, 1),
     })
 
@@ -462,14 +466,14 @@ class C04(Check):
             "now": st.booleans(),
             "section_start": st.lists(st.tuples(st.integers(0, 7), st.sampled_from(
                 [0x1000000, 0x2000000, 0x1234560, 0x3000008, 0x800000, 0x40001001, 0x7000000])).map(list),
-                max_size=2, unique_by=lambda t: t[0]),
-            "use_section_start": st.sampled_from([False, False, True]),
+                min_size=1, max_size=2, unique_by=lambda t: t[0]),
+            "use_section_start": st.sampled_from([False, True]),
             "ehhdr": st.sampled_from([None, True, False]),
             "build_id": st.sampled_from([None, None, "fast", "md5", "sha1", "uuid", "0x0123456789abcdef", "none"]),
             "hash_style": st.sampled_from([None, "gnu", "sysv", "both"]),
             "stack_size": st.sampled_from([None, None, 0x100000]),
             "gc": st.booleans(),
-            "script": st.sampled_from([None, None, None, "basic", "addr", "align"]),
+            "script": st.sampled_from([None, None, "basic", "addr", "align"]),
             "script_base": st.sampled_from([0x10000, 0x400000, 0x600000, 0x1000000]),
             "ptrs": st.booleans(),
             "threads": st.sampled_from([0, 0, 1]),
@@ -582,7 +586,7 @@ class C04(Check):
             code.append('.section .init_array,"aw",@init_array\n.quad vfn\n')
         srcs[0].append("".join(code))
         objs = []
-        tools.asm("".join(srcs[0]), "o0.o", cwd=d)
+        slow.asm("".join(srcs[0]), "o0.o", cwd=d)
         objs.append("o0.o")
         if any(s["obj"] == 1 for s in secs):
             c1 = ['.section .text.vother,"ax",@progbits\n.globl vother\n.type vother,@function\nvother:\n']
@@ -591,13 +595,13 @@ class C04(Check):
                     c1.append(f"  leaq {s['label']}(%rip), %rax\n")
             c1.append("  ret\n")
             srcs[1].append("".join(c1))
-            tools.asm("".join(srcs[1]), "o1.o", cwd=d)
+            slow.asm("".join(srcs[1]), "o1.o", cwd=d)
             objs.append("o1.o")
         helper = None
         if kind in ("pie", "dynamic", "shared"):
-            tools.asm('.text\n.globl hfunc\n.type hfunc,@function\nhfunc: ret\n.data\n.globl hdata\n.type hdata,@object\n'
+            slow.asm('.text\n.globl hfunc\n.type hfunc,@function\nhfunc: ret\n.data\n.globl hdata\n.type hdata,@object\n'
                       '.size hdata,8\nhdata: .quad 1\n', "h.o", cwd=d)
-            tools.must(tools.link("ld", ["-shared", "-soname", "libh.so", "-o", "libh.so", "h.o"], cwd=d), "helper library")
+            tools.must(slow.link("ld", ["-shared", "-soname", "libh.so", "-o", "libh.so", "h.o"], cwd=d), "helper library")
             helper = "libh.so"
         if script:
             tools.write(f"{d}/s.ld", self.script_text(case, secs, script))
@@ -687,7 +691,7 @@ class C04(Check):
         verdicts = {}
         for who in ("ld", "lld", "wild"):
             out = f"out.{who}"
-            r = tools.link(who, self.link_args(case, who, secs, script, objs, helper, out), cwd=d)
+            r = slow.link(who, self.link_args(case, who, secs, script, objs, helper, out), cwd=d)
             if who == "wild":
                 if r.timed_out:
                     raise Inconclusive("wild timed out")
